@@ -17,7 +17,7 @@ from mc.props.common import IT, Textgrid, PE, call, scratch_dir
 from mc.props.c01 import teq
 
 FMTS = ("short_textgrid", "long_textgrid", "json", "textgrid_json")
-OVERRIDES = ("none", "equal", "below", "above", "both", "inside-min", "inside-max")
+OVERRIDES = ("none", "equal", "below", "above", "both", "inside-min", "inside-max", "just-below", "just-above", "lead-gap-mid", "lead-gap-end", "trail-gap-mid", "trail-gap-start")
 ORD = 0.25
 
 
@@ -70,17 +70,40 @@ def check(case):
     oc = set()
     first_end = ents[0][1] if ents else hi
     for ov in OVERRIDES:
-        omin = {"none": None, "equal": lo, "below": lo - 1.0, "above": None, "both": lo - 1.0,
-                "inside-min": lo + (ORD / 2 if not ents else (ents[0][0] + ents[0][1]) / 2 - lo + 0.0) if True else None,
-                "inside-max": None}[ov]
-        omax = {"none": None, "equal": hi, "below": None, "above": hi + 1.0, "both": hi + 1.0, "inside-min": None,
-                "inside-max": (ents[-1][0] + ents[-1][1]) / 2 if ents else None}[ov]
-        if ov == "inside-min":
-            omin = (ents[0][0] + ents[0][1]) / 2 if ents else None
+        omin = omax = None
+        if ov == "equal":
+            omin, omax = lo, hi
+        elif ov in ("below", "both"):
+            omin = lo - 1.0
+        if ov in ("above", "both"):
+            omax = hi + 1.0
+        if ov == "just-below":  # the leading blank is itself a sliver
+            omin = lo - 5e-9
+        if ov == "just-above":
+            omax = hi + 5e-9
+        if ov.startswith("lead-gap"):  # the requested span starts inside / at the end of an unlabelled leading stretch
+            if not segs or segs[0][0] != "G":
+                continue
+            omin = (segs[0][1] + segs[0][2]) / 2 if ov.endswith("mid") else segs[0][2]
+        if ov.startswith("trail-gap"):
+            if not segs or segs[-1][0] != "G":
+                continue
+            omax = (segs[-1][1] + segs[-1][2]) / 2 if ov.endswith("mid") else segs[-1][1]
         if ov.startswith("inside") and not ents:
+            continue
+        if ov == "inside-min":
+            omin = (ents[0][0] + ents[0][1]) / 2
+        if ov == "inside-max":
+            omax = (ents[-1][0] + ents[-1][1]) / 2
+        if omin is not None and omax is not None and not omin < omax:
             continue
         fmin = lo if omin is None else omin
         fmax = hi if omax is None else omax
+        if not fmin < fmax:
+            continue  # a requested span without positive length is not a span
+        if not ov.startswith("inside") and not any(k in "LG" and min(e_, fmax) - max(s_, fmin) > ORD / 4 for k, s_, e_, _ in segs) \
+                and not (fmin < lo - 0.5 or fmax > hi + 0.5):
+            continue  # nothing ordinary is left inside the requested span: outside C04's "mixing ordinary intervals" domain
         for blanks in (True, False):
             for fmt in FMTS:
                 n += 1
@@ -130,7 +153,12 @@ def _judge(W, segs, lo, hi, fmin, fmax, T):
     for a in W:
         if not a[0] < a[1]:
             return f"interval {a!r} has no positive length"
-    allsegs = list(segs)
+    # the segments as seen through the requested span (an override may only cut into unlabelled stretches here)
+    allsegs = []
+    for k, s_, e_, lab in segs:
+        s2, e2 = max(s_, fmin), min(e_, fmax)
+        if s2 < e2:
+            allsegs.append((k, s2, e2, lab))
     if fmin < lo:
         allsegs.insert(0, ("G", fmin, lo, None))
     if fmax > hi:
@@ -205,7 +233,7 @@ def parts(tier):
         "slivers", lambda: gen(quick), check,
         rule="all segment sequences over {ordinary labelled, ordinary gap, labelled sliver, gap sliver} of length <=%d with at least "
              "one ordinary segment and <=3 slivers x sliver lengths x base times {0,0.3,1} x thresholds {None,1e-8,0.06}; each case "
-             "runs 7 span overrides x includeBlankSpaces x 4 formats; non-trivial = distinct (sequence, threshold, exact sliver "
+             "runs 13 span overrides (none, equal, below/above/both by 1 s, just below/above by a sliver, inside an unlabelled leading/trailing stretch, inside the data) x includeBlankSpaces x 4 formats; non-trivial = distinct (sequence, threshold, exact sliver "
              "classification)" % (4 if quick else 5),
         bounds={"max_segments": 4 if quick else 5, "sliver_lengths": list((1e-12, 9.9e-9, 1e-8, 1.1e-8) if quick else D.SLV)},
         snippet=_snippet, chunk=8)]
